@@ -179,6 +179,15 @@ func runPluginSigner() int {
 		var sig []byte
 		var serr error
 		panicked, msg := guarded(func() {
+			if mix(*flagSeed, c.ID, "used")%3 == 1 {
+				// the signer has been used before: an honest answer to an earlier request (another artifact) on the SAME
+				// PluginSigner; the checks of the call proper must not lean on anything learnt then
+				mp := p.mutPayload
+				p.dev, p.mutPayload = nil, nil
+				earlier := ocispec.Descriptor{MediaType: mtB, Digest: digestOf(digest.SHA256, []byte("an earlier artifact")), Size: 99}
+				_, _, _ = ps.Sign(context.Background(), earlier, opts)
+				p.dev, p.mutPayload, p.calls = devs, mp, nil
+			}
 			if in.API == "Sign" {
 				sig, _, serr = ps.Sign(context.Background(), copyDesc(want), opts)
 			} else {
